@@ -110,10 +110,13 @@ def check_constructed(aname, bname, tA, tB, alpha, scale, acc, how='method', sca
     if r[0] != 'ok':
         acc.violation('intersect_raises', dict(sig, exc=r[1]), case, observed=r)
         return
-    hits = [(t1, t2) for (t1, t2) in r[1] if abs(t1 - tA) <= 1e-4 and abs(t2 - tB) <= 1e-4]
+    # the helper called with its OWN default tol_deC = 1e-8 stops at boxes sqrt(1e-8) = 1e-4 across: its answers are that
+    # coarse by design (the segment methods pass 1e-12), so the window is ten boxes there
+    win = 1e-3 if how in ('helper_defaults', 'helper_tol_only_keyword', 'helper_tol_only_positional') else 1e-4
+    hits = [(t1, t2) for (t1, t2) in r[1] if abs(t1 - tA) <= win and abs(t2 - tB) <= win]
     if len(hits) != 1:
         acc.violation('crossing_missed' if not hits else 'crossing_reported_more_than_once', sig, case,
-                      observed=[list(map(float, h)) for h in r[1]][:12], expected='one pair within 1e-4 of (%r, %r)' % (tA, tB),
+                      observed=[list(map(float, h)) for h in r[1]][:12], expected='one pair within %g of (%r, %r)' % (win, tA, tB),
                       detail='%d reported in total, %d near the constructed crossing' % (len(r[1]), len(hits)))
 
 
